@@ -79,7 +79,11 @@ def run(chk):
         lines.append("K %s | always abc 1" % base)              # finalised now: must be rejected
         lines += ["Y %s ;; %s" % (base, tcases[0])]
         lines += ["Y %s ;; %s" % (other, trans.case_line("T", 4, [97, 98], 10))]
-        outs = common.run_stream(exe, ["e 1"], lines, env=env, timeout=600)
+        # every other sequence with the image moved to a fresh block on every arena allocation (hook): pointers into the
+        # image kept across an allocation are stale at once, not only when a growth happens to fall on that allocation
+        moved = si % 2 == 1
+        chk.tally("sequences_with_image_moved_on_every_allocation" if moved else "sequences_with_real_growth_only")
+        outs = common.run_stream(exe, ["e 1", "m %d" % (1 if moved else 0)], lines, env=env, timeout=900)
         key = (si,)
         if any(isinstance(o, tuple) for o in outs):
             chk.count(key)
